@@ -34,9 +34,14 @@ where
 
     async fn read_at(&mut self, offset: u64, size: usize) -> Result<Bytes, io::Error> {
         self.0.seek(io::SeekFrom::Start(offset)).await?;
-        let mut buf = BytesMut::with_capacity(size);
+        // Grow the buffer as data arrives instead of trusting the requested size up front;
+        // the size may come from an untrusted header and exceed what the source can deliver.
+        const MAX_GROW: usize = 1024 * 1024;
+        let mut buf = BytesMut::new();
+        let mut reader = (&mut self.0).take(size as u64);
         while buf.len() < size {
-            if self.0.read_buf(&mut buf).await? == 0 {
+            buf.reserve(std::cmp::min(size - buf.len(), MAX_GROW));
+            if reader.read_buf(&mut buf).await? == 0 {
                 return Err(io::ErrorKind::UnexpectedEof.into());
             }
         }
